@@ -27,6 +27,7 @@ func entropy(n int, seed uint32) string {
 // c17: secure plugin end to end.
 func c17(p Params) func() {
 	codecName := p.Get("codec", "json")
+	proto := p.Get("proto", "raw")
 	return func() {
 		begin()
 		kinds := []string{"call", "push"}
@@ -55,7 +56,7 @@ func c17(p Params) func() {
 		sameKey := keys[ki][0] == keys[ki][1]
 		arg := entropy(n, 7)
 		result := entropy(n, 99)
-		ctxt := fmt.Sprintf("kind=%s secure=%q accept=%q keys=%d len=%d codec=%s explicitOK=%v", kind, sec, acc, ki, n, codecName, explicitOK)
+		ctxt := fmt.Sprintf("kind=%s secure=%q accept=%q keys=%d len=%d codec=%s proto=%s explicitOK=%v", kind, sec, acc, ki, n, codecName, proto, explicitOK)
 
 		run := func(withPlugin bool) (handlerArgs []string, st *erpc.Status, res string, c2s, s2c []byte) {
 			var sp, cp []erpc.Plugin
@@ -74,7 +75,7 @@ func c17(p Params) func() {
 				return okStatus()
 			})
 			cli := world.NewPeer(codecName, cp...)
-			cs, _, link := world.Connect(cli, srv, nil)
+			cs, _, link := world.Connect(cli, srv, world.Proto(proto))
 			var settings []erpc.MessageSetting
 			if sec != "" {
 				settings = append(settings, erpc.WithSetMeta(secure.SECURE_META_KEY, sec))
